@@ -37,6 +37,35 @@ func (re *Regexp) Split(input string, count int) ([]string, error) {
 
 	m, err := re.FindStringMatch(input)
 
+	if re.RightToLeft() {
+		// matches arrive from the end of the input: collect the pieces back to
+		// front (each match's groups last to first) and reverse them at the end
+		for ; m != nil && count > 0; m, err = re.FindNextMatch(m) {
+			if txt == nil {
+				txt = m.text.runes
+				priorIndex = len(txt)
+			}
+			retVal = append(retVal, string(txt[m.RuneIndex+m.RuneLength:priorIndex]))
+			gs := m.Groups()
+			for i := len(gs) - 1; i >= 1; i-- {
+				retVal = append(retVal, gs[i].String())
+			}
+			priorIndex = m.RuneIndex
+			count--
+		}
+		if err != nil {
+			return nil, err
+		}
+		if txt == nil {
+			return []string{input}, nil
+		}
+		retVal = append(retVal, string(txt[:priorIndex]))
+		for i, j := 0, len(retVal)-1; i < j; i, j = i+1, j-1 {
+			retVal[i], retVal[j] = retVal[j], retVal[i]
+		}
+		return retVal, nil
+	}
+
 	for ; m != nil && count > 0; m, err = re.FindNextMatch(m) {
 		txt = m.text.runes
 		// if we have an m, we don't have an err
